@@ -236,9 +236,19 @@ def run(facts, res):
             for bi, t in cb.calls():
                 if t.callee is None or t.callee.name != "push" or len(t.args) < 2:
                     continue
-                recv = du.operand_term(t.args[0], 8)
-                if not any(x[0] in ("var", "upvar") and x[2] == "changes" for x in walk(recv)) and "Change" not in cb.local_ty(t.args[0].place.local if t.args[0].place is not None else 0):
-                    if "melda::Change" not in (t.callee.full or ""):
+                # a change record is pushed: the value is a Change, or it is built from the element of an iteration over a
+                # tree's revision map (the stage export pushes serde_json values)
+                if "melda::Change" not in (t.callee.full or "") and "Change" not in cb.local_ty(t.args[0].place.local if t.args[0].place is not None else 0):
+                    v_ = du.operand_term(t.args[1], 30)
+                    from ..flows import flow_of as _fo
+                    src_ = _fo(cb).operand_sources(t.args[1])      # may-derive graph: sees through `vec![..]` (boxed array)
+                    via_next = any(cb.blocks[bb].term.callee is not None and cb.blocks[bb].term.callee.name == "next" and cb.blocks[bb].term.args and
+                                   (contains_call(du.operand_term(cb.blocks[bb].term.args[0], 20), "get_revisions") or
+                                    contains_call(du.operand_term(cb.blocks[bb].term.args[0], 20), "get_leafs")) for bb in _fo(cb).call_blocks(src_))
+                    via_elem = cb.kind == "closure" and (("l", 2) in src_ or any(x[0] == "param" and x[1] == 2 for x in walk(v_))) and \
+                        any(contains_call(arg_term(s_.body, s_.term, 0, 20), "get_revisions") or contains_call(arg_term(s_.body, s_.term, 0, 20), "get_leafs")
+                            for s_ in cg_of(facts).callers_of(cb.path) if cb in s_.closures)
+                    if not (contains_call(v_, "get_revisions") or contains_call(v_, "get_leafs") or via_next or via_elem):
                         continue
                 pushes.append((bi, t))
             # keyed accumulation (map / set insert under is_staging) can collapse two staged entries into one record
